@@ -345,8 +345,12 @@ static void vs_yield(int op, int obj) {
     struct vs_thread *th = &vs_th[me];
     th->op = op;
     th->obj = obj;
-    /* spin detection: >=3 consecutive lock points on the same object with nobody else running in between */
-    if (op == VOP_LOCK || op == VOP_TRYLOCK || op == VOP_ATOMIC || op == VOP_YIELD) {
+    /* waiting made visible: an explicit yield (harness polling loop) deschedules the thread until some other thread
+     * has taken a step; >=3 consecutive lock points on the same object (or >=12 identical atomic points) with nobody
+     * else running in between are treated the same way (aws_thread_join_all_managed's documented spin-wait) */
+    if (op == VOP_YIELD) {
+        th->spin_yielded = 1;
+    } else if (op == VOP_LOCK || op == VOP_TRYLOCK || op == VOP_ATOMIC) {
         if (th->spin_obj == obj * 32 + op) {
             if (++th->spin_count >= 3 && (op != VOP_ATOMIC || th->spin_count >= 12)) th->spin_yielded = 1;
         } else {
